@@ -2,10 +2,10 @@ package main
 
 // Registry of checks: which harness runs on which configurations per tier.
 
-const nCoreTables = 34
+const nCoreTables = 35
 
 func curlyOnly(tbl int) bool { return tbl == 2 || tbl == 3 || tbl == 6 || tbl == 18 || tbl == 22 || tbl == 28 }
-func hasMedia(tbl int) bool  { return tbl == 8 || tbl == 9 || tbl == 32 || tbl == 33 }
+func hasMedia(tbl int) bool  { return tbl == 8 || tbl == 9 || tbl == 32 || tbl == 33 || tbl == 34 }
 
 var commonAssumptions = []string{
 	"symbolic bytes are ASCII (0x00-0x7f); non-ASCII input is outside the claim",
@@ -136,7 +136,7 @@ func properties() map[string]*propDef {
 		ID: "C18",
 		Items: func(tier string, seed int) []item {
 			var out []item
-			for _, tbl := range []int{0, 1, 7, 8, 9, 10, 15, 16, 19, 21, 24, 25, 26, 27, 29, 30, 32, 33} {
+			for _, tbl := range []int{0, 1, 7, 8, 9, 10, 15, 16, 19, 21, 24, 25, 26, 27, 29, 30, 32, 33, 34} {
 				st18 := 0
 				if tier == "thorough" {
 					st18 = 10
@@ -151,7 +151,7 @@ func properties() map[string]*propDef {
 			}
 			return out
 		},
-		Bounds:         map[string]interface{}{"path_bytes": 12, "segments": 3, "method_bytes": 7, "content_type_bytes": 6, "accept_bytes": 8, "tables": 18},
+		Bounds:         map[string]interface{}{"path_bytes": 12, "segments": 3, "method_bytes": 7, "content_type_bytes": 6, "accept_bytes": 8, "tables": 19},
 		Assumptions:    commonAssumptions,
 		Rule:           "core tables of the common fragment (literal roots, literal/plain-variable segments) x stage; twin containers (CurlyRouter, RouterJSR311) get the same symbolic request",
 		RequiredCovers: []string{"invoked", "not-invoked"},
@@ -288,7 +288,11 @@ func properties() map[string]*propDef {
 				add(2, 0, 8, 18)
 				add(4, 2, 3, 2)
 				add(1, 3, 1, 1)
+				add(13, 0, 4, 1)
+				add(14, 0, 4, 1)
 			} else {
+				add(13, 0, 6, 7)
+				add(14, 0, 6, 7)
 				add(1, 3, 3, 1)
 				add(2, 3, 3, 1)
 				add(0, 0, 9, 20)
@@ -303,7 +307,7 @@ func properties() map[string]*propDef {
 		Bounds: map[string]interface{}{"accept_bytes": "8 (thorough up to 13)", "ranges": 2, "parameters_per_range": "1 (mode 1: 2)", "produces": "[a/x], [a/j,a/x], [a/x,a/j], [application/xml], [application/json,application/xml]",
 			"registered_writers": "{a/j (JSON), a/x (XML)} or the built-in pair", "q_values": "D or D.D{1,3} judged; other spellings unspecified; ParseFloat summarised on DIGIT{1,2}(.DIGIT{0,3})? / surely-invalid, the rest ends the path as unmodelled"},
 		Assumptions: append([]string{"JSON/XML marshalling is stubbed (arbitrary output or error)", "map iteration order is an explicit nondeterministic choice (all permutations explored)",
-			"DefaultResponseMimeType is empty (its default)"}, commonAssumptions...),
+			"DefaultResponseMimeType is empty except in the two configurations that set it (JSON against Produces [xml]; XML against Produces [json, xml])"}, commonAssumptions...),
 		Rule:           "Produces list x Accept shape x capacity, partitioned by header length; the Accept header is a flat symbolic string; the entity-writer decision is taken twice per request with independent map orders",
 		RequiredCovers: []string{"admitted", "not-admitted", "definite"},
 	}
